@@ -3,6 +3,7 @@
 package h
 
 import (
+	"fmt"
 	"time"
 
 	"cosmossdk.io/math"
@@ -48,6 +49,7 @@ func NoPanic(id string, f func()) (ok bool) {
 	defer func() {
 		if r := recover(); r != nil {
 			ok = false
+			PanicNote(r)
 			nd.Assert(id+".nopanic", false)
 		}
 	}()
@@ -104,4 +106,11 @@ func ErrNote(err error) {
 
 func stakingDelegation(del sdk.AccAddress, val sdk.ValAddress, shares math.LegacyDec) stakingtypes.Delegation {
 	return stakingtypes.NewDelegation(del.String(), val.String(), shares)
+}
+
+// PanicNote records the text of a recovered panic in the native replay output.
+func PanicNote(r interface{}) {
+	if !nd.Symbolic() {
+		nd.Note("panic: " + fmt.Sprint(r))
+	}
 }
